@@ -174,7 +174,7 @@ func drawC17(rt *rapid.T) C17Scenario {
 		if faulty && rapid.IntRange(0, 1).Draw(rt, "roundfault") == 0 {
 			nfault := rapid.IntRange(1, 2).Draw(rt, "nfaults")
 			for i := 0; i < nfault; i++ {
-				modes := []string{"500", "502", "stall", "refuse-after", "refuse-after", "lost-ack", "garbage"}
+				modes := []string{"500", "502", "stall", "refuse-after", "refuse-after", "lost-ack", "late-ack", "garbage"}
 				if sc.Platform == "github" {
 					modes = append(modes, "403-rate")
 				} else {
@@ -505,7 +505,7 @@ func runC17(t *testing.T, sc C17Scenario, record bool) *detsim.Outcome {
 		deleteFaulted := false
 		lostAck := false
 		for _, c := range calls {
-			if c.Fault == "lost-ack" && c.Applied {
+			if (c.Fault == "lost-ack" || c.Fault == "late-ack") && c.Applied {
 				lostAck = true // the platform applied a request whose answer never arrived: outside the property's quantifier
 			}
 			if c.Fault != "" {
@@ -588,14 +588,11 @@ func runC17(t *testing.T, sc C17Scenario, record bool) *detsim.Outcome {
 			// --- safety: holds after every run, completed or not ---
 			for i, c := range created {
 				if lostAck {
-					// a retried create after a lost acknowledgement may legitimately double a comment;
-					// explored and counted, not judged (DESIGN 2.4)
-					for _, o := range created[:i] {
-						if o.Path == c.Path && o.Line == c.Line && trimBody(o.Body) == trimBody(c.Body) {
-							out.Probes["observed_duplicate_after_lost_ack"]++
-						}
-					}
-					continue
+					// The platform applied a create whose answer never reached pint. Sending that create again
+					// makes a comment equal to one that exists by then: the clause is about what exists on the
+					// platform, not about what pint knows, so it is judged here like anywhere else (pint gives
+					// the run up on such an error and recognises the comment on the next run).
+					out.Probes["create_applied_but_unacknowledged"]++
 				}
 				for _, b := range beforeM {
 					if !b.General && b.Path == c.Path && b.Line == c.Line && b.OldLine == c.OldLine && trimBody(b.Body) == trimBody(c.Body) {
